@@ -112,6 +112,8 @@ FUNCS = {
     "asctime_s":     ("shim_asctime_s", "e", "pnpnpn", 1),
     "ctime_s":       ("shim_ctime_s", "e", "pnpnpn", 1),
     "gets_s":        ("shim_gets_s", "e", "pnnpn", 1),
+    "gmtime_s":      ("shim_gmtime_s", "e", "pppn", 4),
+    "localtime_s":   ("shim_localtime_s", "e", "pppn", 4),
 }
 
 
